@@ -22,7 +22,8 @@ for n in names:
     repo = "/var/tmp/mutrepo-%s-%d" % (n, os.getpid())
     shutil.rmtree(repo, ignore_errors=True)
     subprocess.check_call(["rsync", "-a", "--exclude", "/target", "--exclude", ".git", "/repo/", repo + "/"])
-    r = subprocess.run(["patch", "-p1", "-s", "-i", os.path.join(d, "patch.diff")], cwd=repo, capture_output=True, text=True)
+    pf = os.path.join(d, "patch_rebased.diff") if os.path.exists(os.path.join(d, "patch_rebased.diff")) else os.path.join(d, "patch.diff")
+    r = subprocess.run(["patch", "-p1", "-s", "-i", pf], cwd=repo, capture_output=True, text=True)
     if r.returncode != 0:
         print(n, "PATCH DOES NOT APPLY to current /repo:", r.stdout[-300:], r.stderr[-300:]); shutil.rmtree(repo); continue
     resf = os.path.join(d, "result.json")
@@ -33,6 +34,8 @@ for n in names:
         r = subprocess.run([os.path.join(VERIF, "check"), p, tier, "--no-evidence"], env=env, capture_output=True, text=True)
         lines = [l for l in r.stdout.splitlines() if l.startswith(("VIOLATION", "INCONCLUSIVE", "KNOWN-FINDING", "  harness", "[")) or "FAILED:" in l]
         verdict = {0: "MISSED", 1: "DETECTED", 2: "INCONCLUSIVE"}.get(r.returncode, "rc%d" % r.returncode)
+        if r.returncode == 1 and "VIOLATION property=" not in r.stdout:
+            verdict = "RUNNER-ERROR"
         print("%-8s %s/%s -> %s (%.0fs)" % (n, p, tier, verdict, time.time() - t0), flush=True)
         for l in lines[:12]: print("     ", l[:220])
         res["%s/%s" % (p, tier)] = {"verdict": verdict, "rc": r.returncode, "wall_s": round(time.time() - t0), "lines": lines[:20]}
